@@ -257,7 +257,9 @@ func runC11(r *Run) {
 	r.rule("R4", "client struct encoder covers the kinds of the domain (E8)", func() {
 		f := r.Fn(cliPkg, "SetValWithStruct")
 		var cl *ssa.Function
-		for _, a := range anonFuncsDeep(f) {
+		// the function that switches on the field's Kind: a closure of SetValWithStruct, or a helper of the package it calls
+		cands := append(append([]*ssa.Function{}, anonFuncsDeep(f)...), helpersOf(f)...)
+		for _, a := range cands {
 			if len(callsMatching(a, false, nameIs("(reflect.Value).Kind"))) > 0 {
 				cl = a
 			}
